@@ -909,11 +909,33 @@ class Interp:
         if isinstance(seq, list):
             return ("concrete", it)
         base_locals = dict(fr.locals)
+        made_at = len(self.ctx.writes)
 
-        def elem(i, seq=seq, g=g, n=n, fr=fr, base_locals=base_locals):
+        def raw_elem(i):
             f2 = Frame(fr.fi, fr.module, dict(base_locals), fr.selfcls)
             self.assign(g.target, seq.elem(i), f2)
-            return self.eval(n.elt, f2)
+            w0 = len(self.ctx.writes)
+            v = self.eval(n.elt, f2)
+            if len(self.ctx.writes) != w0:
+                raise EngineLimit("comprehension element with side effects over a symbolic-length sequence")
+            return v
+        # python evaluates every element NOW: an exception some element raises is raised here.  Probe one arbitrary
+        # in-range index (fresh k, only when the sequence is non-empty): the raising paths are explored as real exits.
+        nonempty = seq.n > 0 if not isinstance(seq.n, int) else seq.n > 0
+        if nonempty is True or (nonempty is not False and self.ctx.branch(nonempty)):
+            k = self.ctx.fresh("comp_k", z3.IntSort())
+            self.ctx.assume(z3.And(0 <= k, k < (seq.n if not isinstance(seq.n, int) else z3.IntVal(seq.n))))
+            raw_elem(k)
+
+        def elem(i):
+            # later (lazy) evaluations: the heap must not have changed since, and a raising element was already
+            # accounted for by the probe above, so such a branch is not a new behaviour of this path
+            if len(self.ctx.writes) != made_at:
+                raise EngineLimit("lazily evaluated comprehension read after heap writes")
+            try:
+                return raw_elem(i)
+            except PyExc:
+                raise PathEnd()
         return ("symbolic", SymSeq(seq.n, elem, "list", True, mutable=True))
 
     def ex_ListComp(self, n, fr):
